@@ -1,6 +1,7 @@
 """C14 (synthesised class diagrams): a BridgePoint class model is generated as ooaofooa rows from an
-ABSTRACT class diagram (classes with typed attributes and identifiers, formalised simple associations
-with referential -> identifying attribute pairs, multiplicity / conditionality and phrases), loaded,
+ABSTRACT class diagram (classes with typed attributes and identifiers; formalised simple, subtype /
+supertype and linked (association class, also reflexive) associations with referential -> identifying
+attribute pairs, multiplicity / conditionality and phrases), loaded,
 and the extracted component is compared with the signature computed DIRECTLY from the diagram
 (absolute oracle, independent of mk_class / mk_simple_association).  Diagram, multiplicities and row
 order are case-split table indices; model text is realised."""
@@ -28,6 +29,18 @@ DIAGRAMS = [
     dict(classes=[('K', [('A', 'unique_id', [0]), ('B', 'string', [0]), ('C', 'integer', [0, 1])]),
                   ('U', [('Id', 'unique_id', [0])])],
          assocs=[(3, 'K', 'U', [('K_C', 'C'), ('K_A', 'A'), ('K_B', 'B')]), (4, 'U', 'K', [('U_Id', 'Id')])]),
+    # a supertype with three subtypes whose referential attributes have DIFFERENT names, next to a simple association
+    dict(classes=[('Sup', [('Id', 'unique_id', [0]), ('Name', 'string', [])]),
+                  ('SA', [('A_No', 'integer', [0])]), ('SB', [('B_No', 'integer', [0])]), ('SC', [('C_No', 'integer', [0])]),
+                  ('Own', [('Tag', 'string', [0])])],
+         assocs=[(9, 'Sup', 'Own', [('Sup_Ref', 'Id')])],
+         subsups=[(5, 'Sup', [('SA', [('Id', 'Id')]), ('SB', [('Sup_Id', 'Id')]), ('SC', [('Parent', 'Id')])])]),
+    # an association class between two classes (compound key on one side) and a reflexive one with phrases
+    dict(classes=[('P', [('X', 'integer', [0]), ('Y', 'string', [0])]), ('Q', [('Id', 'unique_id', [0])]),
+                  ('PQ', [('Since', 'integer', [])]), ('QQ', [('W', 'real', [])])],
+         assocs=[],
+         linked=[(6, 'P', 'Q', 'PQ', [('P_X', 'X'), ('P_Y', 'Y')], [('Q_Id', 'Id')], 'holds', 'is held by'),
+                 (8, 'Q', 'Q', 'QQ', [('Left_Id', 'Id')], [('Right_Id', 'Id')], 'is left of', 'is right of')]),
 ]
 MC = list(itertools.product([0, 1], repeat=4))        # (part Mult, part Cond, form Mult, form Cond)
 ORDERS = [None, 1, 2, 3]
@@ -105,6 +118,46 @@ def synthesise(diagram, mc, order):
             r.insert('O_RATTR', Attr_ID=ra, Obj_ID=obj[form], BAttr_ID=ida, BObj_ID=obj[part])
             r.insert('O_REF', Obj_ID=obj[form], RObj_ID=obj[part], ROid_ID=0, RAttr_ID=ida, Rel_ID=rel, OIR_ID=foir,
                      ROIR_ID=poir, Attr_ID=ra, ARef_ID=r.new_id())
+    def formalise(rel, form, foir, part, poir, refs, done):
+        for (rn, idn) in refs:
+            ida = attr[(part, idn)]
+            if (ida, poir) not in done:
+                done.add((ida, poir))
+                r.insert('O_RTIDA', Attr_ID=ida, Obj_ID=obj[part], Oid_ID=0, Rel_ID=rel, OIR_ID=poir)
+            ra = r.attr(obj[form], rn, CORE['same_as<Base_Attribute>'])
+            r.insert('O_RATTR', Attr_ID=ra, Obj_ID=obj[form], BAttr_ID=ida, BObj_ID=obj[part])
+            r.insert('O_REF', Obj_ID=obj[form], RObj_ID=obj[part], ROid_ID=0, RAttr_ID=ida, Rel_ID=rel, OIR_ID=foir,
+                     ROIR_ID=poir, Attr_ID=ra, ARef_ID=r.new_id())
+    for (numb, sup, subs) in diagram.get('subsups', []):
+        rel, soir = r.new_id(), r.new_id()
+        r.insert('R_REL', Rel_ID=rel, Numb=numb)
+        r.insert('R_SUBSUP', Rel_ID=rel)
+        r.insert('R_OIR', Obj_ID=obj[sup], Rel_ID=rel, OIR_ID=soir)
+        r.insert('R_RTO', Obj_ID=obj[sup], Rel_ID=rel, OIR_ID=soir, Oid_ID=0)
+        r.insert('R_SUPER', Obj_ID=obj[sup], Rel_ID=rel, OIR_ID=soir)
+        done = set()
+        for (sub, refs) in subs:
+            foir = r.new_id()
+            r.insert('R_OIR', Obj_ID=obj[sub], Rel_ID=rel, OIR_ID=foir)
+            r.insert('R_RGO', Obj_ID=obj[sub], Rel_ID=rel, OIR_ID=foir)
+            r.insert('R_SUB', Obj_ID=obj[sub], Rel_ID=rel, OIR_ID=foir)
+            formalise(rel, sub, foir, sup, soir, refs, done)
+    for (numb, one_c, oth_c, link_c, refs_one, refs_oth, ph_one, ph_oth) in diagram.get('linked', []):
+        rel, ooir, toir, loir = r.new_id(), r.new_id(), r.new_id(), r.new_id()
+        r.insert('R_REL', Rel_ID=rel, Numb=numb)
+        r.insert('R_ASSOC', Rel_ID=rel)
+        r.insert('R_OIR', Obj_ID=obj[one_c], Rel_ID=rel, OIR_ID=ooir)
+        r.insert('R_RTO', Obj_ID=obj[one_c], Rel_ID=rel, OIR_ID=ooir, Oid_ID=0)
+        r.insert('R_AONE', Obj_ID=obj[one_c], Rel_ID=rel, OIR_ID=ooir, Mult=pm, Cond=pc, Txt_Phrs="'%s'" % ph_one)
+        r.insert('R_OIR', Obj_ID=obj[oth_c], Rel_ID=rel, OIR_ID=toir)
+        r.insert('R_RTO', Obj_ID=obj[oth_c], Rel_ID=rel, OIR_ID=toir, Oid_ID=0)
+        r.insert('R_AOTH', Obj_ID=obj[oth_c], Rel_ID=rel, OIR_ID=toir, Mult=fm, Cond=fc, Txt_Phrs="'%s'" % ph_oth)
+        r.insert('R_OIR', Obj_ID=obj[link_c], Rel_ID=rel, OIR_ID=loir)
+        r.insert('R_RGO', Obj_ID=obj[link_c], Rel_ID=rel, OIR_ID=loir)
+        r.insert('R_ASSR', Obj_ID=obj[link_c], Rel_ID=rel, OIR_ID=loir, Mult=0)
+        done = set()
+        formalise(rel, link_c, loir, one_c, ooir, refs_one, done)
+        formalise(rel, link_c, loir, oth_c, toir, refs_oth, done)
     rows = list(r.rows)
     if order is not None:
         random.Random(order).shuffle(rows)
@@ -136,6 +189,21 @@ def expected(diagram, mc):
         refl = part == form
         assocs.append(('R%d' % numb, form, frozenset(refs), card(fm, fc), ("is the %d of" % numb) if refl else '',
                        part, card(pm, pc), ("has %d" % numb) if refl else ''))
+    for (numb, sup, subs) in diagram.get('subsups', []):
+        for sub, refs in subs:
+            for rn, idn in refs:
+                classes[sub.upper()].append((rn, types[(sup, idn)]))
+            # a subtype instance has exactly one supertype instance; a supertype instance at most one of each subtype
+            assocs.append(('R%d' % numb, sub, frozenset(refs), '1C', '', sup, '1', ''))
+    for (numb, one_c, oth_c, link_c, refs_one, refs_oth, ph_one, ph_oth) in diagram.get('linked', []):
+        for rn, idn in refs_one:
+            classes[link_c.upper()].append((rn, types[(one_c, idn)]))
+        for rn, idn in refs_oth:
+            classes[link_c.upper()].append((rn, types[(oth_c, idn)]))
+        refl = one_c == oth_c
+        # link class -> one side: as many link instances per instance of that side as the OTHER side's multiplicity allows
+        assocs.append(('R%d' % numb, link_c, frozenset(refs_one), card(fm, fc), ph_one if refl else '', one_c, '1', ph_oth if refl else ''))
+        assocs.append(('R%d' % numb, link_c, frozenset(refs_oth), card(pm, pc), ph_oth if refl else '', oth_c, '1', ph_one if refl else ''))
     return classes, {k: {i: frozenset(v) for i, v in d.items()} for k, d in idents.items()}, sorted(assocs, key=repr)
 
 
